@@ -13,6 +13,8 @@ type Ctx struct {
 	pedigreeDepth int
 	sigDepth      int
 	swMemo        map[*FuncUnit]*searchWrap
+	lrMemo        map[*FuncUnit]int
+	sigKind       string
 	L             *Loaded
 	m             *Model
 	e             *Engine
